@@ -312,7 +312,7 @@ end
 def RJ (t : GoType) (v : GoVal) : Prop :=
   ∃ w, decode t (jd (encode t v)) = .ok w ∧ jd (encode t w) = jd (encode t v) ∧ okDoc (encode t w) = true ∧
     (closed t = true → w = canon t v) ∧
-    (soc t = true → equal (encode t w) (zeroDoc t) = equal (encode t v) (zeroDoc t))
+    equal (encode t w) (zeroDoc t) = equal (encode t v) (zeroDoc t)
 
 /-- the same for a document entry `x` -/
 def RJx (t : GoType) (x : Val) : Prop :=
@@ -410,12 +410,12 @@ theorem field_J {t : GoType} {v w : GoVal} (hw : t.wf = true) (ht : hasType t v 
     (hok : okDoc (encode t v) = true) (hr : RJ t v)
     (hd : decodeField (decode t) (zero t) (jd (encode t v)) = .ok w) :
     jd (encode t w) = jd (encode t v) ∧ okDoc (encode t w) = true ∧ (closed t = true → w = canon t v) ∧
-      (soc t = true → equal (encode t w) (zeroDoc t) = equal (encode t v) (zeroDoc t)) := by
+      equal (encode t w) (zeroDoc t) = equal (encode t v) (zeroDoc t) := by
   by_cases hn : jd (encode t v) = .nil
   · have he : encode t v = .nil := (jd_nil_iff hok).mp hn
     rw [hn] at hd; simp only [decodeField] at hd; cases hd
     have hz : encode t (zero t) = encode t v := by rw [zeroDoc_eq, enc_nil_ty ht he, he]
-    exact ⟨by rw [hz], by rw [hz]; exact hok, fun hc => (canon_nil hc ht he).symm, fun _ => by rw [hz]⟩
+    exact ⟨by rw [hz], by rw [hz]; exact hok, fun hc => (canon_nil hc ht he).symm, by rw [hz]⟩
   · rw [decodeField_ne_nil hn] at hd
     obtain ⟨w0, h1, h2, h3, h4, h5⟩ := hr
     rw [h1] at hd; cases hd
@@ -521,26 +521,25 @@ theorem ihj_to_g : (fs : Fields) → (vs : GoVals) → Fields.wf fs = true → h
       exact ⟨trivial, ihj_to_g rest vs hw.2 ht.2 h.2⟩
 
 /-- what the decoded struct re-encodes to, field by field -/
-theorem dec_J : (fs : Fields) → (vs ws : GoVals) → Fields.wf fs = true → hasTypeF fs vs = true → jtOKF fs = true →
+theorem dec_J : (fs : Fields) → (vs ws : GoVals) → Fields.wf fs = true → hasTypeF fs vs = true →
     DecG jd true fs vs ws → FieldsIHJ fs vs →
     (∀ k, (lastF fs ws k).map jd = (lastF fs vs k).map jd) ∧
     (∀ k x, lastF fs ws k = some x → okDoc x = true) ∧
     (closedF fs = true → ws = canonF fs vs)
-  | .nil, .nil, .nil, _, _, _, _, _ => ⟨fun _ => rfl, by intro k x h; simp [lastF] at h, fun _ => by simp [canonF]⟩
-  | .nil, .nil, .cons _ _, _, _, _, hd, _ => by simp [DecG] at hd
-  | .nil, .cons _ _, _, _, ht, _, _, _ => by simp [hasTypeF] at ht
-  | .cons md a t rest, .nil, _, _, ht, _, _, _ => by simp [hasTypeF] at ht
-  | .cons md a t rest, .cons v vs, .nil, _, _, _, hd, _ => by simp [DecG] at hd
-  | .cons md a t rest, .cons v vs, .cons w ws, hw, ht, hj, hd, hih => by
+  | .nil, .nil, .nil, _, _, _, _ => ⟨fun _ => rfl, by intro k x h; simp [lastF] at h, fun _ => by simp [canonF]⟩
+  | .nil, .nil, .cons _ _, _, _, hd, _ => by simp [DecG] at hd
+  | .nil, .cons _ _, _, _, ht, _, _ => by simp [hasTypeF] at ht
+  | .cons md a t rest, .nil, _, _, ht, _, _ => by simp [hasTypeF] at ht
+  | .cons md a t rest, .cons v vs, .nil, _, _, hd, _ => by simp [DecG] at hd
+  | .cons md a t rest, .cons v vs, .cons w ws, hw, ht, hd, hih => by
     have sh := fshape hw ht
     simp only [hasTypeF, Bool.and_eq_true] at ht
     cases sh with
     | nam =>
       simp only [Fields.wf, Bool.and_eq_true] at hw
-      simp only [jtOKF, Bool.and_eq_true] at hj
       simp only [DecG] at hd
       simp only [FieldsIHJ] at hih
-      obtain ⟨ia, ib, ic⟩ := dec_J rest vs ws hw.2 ht.2 hj.2 hd.2 hih.2
+      obtain ⟨ia, ib, ic⟩ := dec_J rest vs ws hw.2 ht.2 hd.2 hih.2
       obtain ⟨f1, f2, f3, _⟩ := field_J hw.1 ht.1 hih.1.1 hih.1.2 hd.1
       refine ⟨?_, ?_, ?_⟩
       · intro k; simp only [lastF, map_or, ia k]
@@ -559,10 +558,9 @@ theorem dec_J : (fs : Fields) → (vs ws : GoVals) → Fields.wf fs = true → h
         simp [canonF, f3 hc.1, ic hc.2]
     | omi =>
       simp only [Fields.wf, Bool.and_eq_true] at hw
-      simp only [jtOKF, Bool.and_eq_true] at hj
       simp only [DecG] at hd
       simp only [FieldsIHJ] at hih
-      obtain ⟨ia, ib, ic⟩ := dec_J rest vs ws hw.2 ht.2 hj.2 hd.2 hih.2
+      obtain ⟨ia, ib, ic⟩ := dec_J rest vs ws hw.2 ht.2 hd.2 hih.2
       by_cases z : equal (encode t v) (zeroDoc t) = true
       · have hd1 := hd.1
         simp only [z, if_true, decodeField] at hd1
@@ -578,7 +576,7 @@ theorem dec_J : (fs : Fields) → (vs ws : GoVals) → Fields.wf fs = true → h
         have hd1 := hd.1
         simp only [z', Bool.false_eq_true, if_false] at hd1
         obtain ⟨f1, f2, f3, f4⟩ := field_J hw.1 ht.1 hih.1.1 hih.1.2 hd1
-        have zw : equal (encode t w) (zeroDoc t) = false := by rw [f4 hj.1.1]; exact z'
+        have zw : equal (encode t w) (zeroDoc t) = false := by rw [f4]; exact z'
         refine ⟨?_, ?_, ?_⟩
         · intro k; simp only [lastF, z', zw, Bool.false_eq_true, if_false, map_or, ia k]
           by_cases e : k = a <;> simp [e, f1]
@@ -596,23 +594,21 @@ theorem dec_J : (fs : Fields) → (vs ws : GoVals) → Fields.wf fs = true → h
           simp [canonF, z', f3 hc.1, ic hc.2]
     | ign =>
       simp only [Fields.wf, Bool.and_eq_true] at hw
-      simp only [jtOKF] at hj
       simp only [DecG] at hd
       simp only [FieldsIHJ] at hih
-      obtain ⟨ia, ib, ic⟩ := dec_J rest vs ws hw.2 ht.2 hj hd.2 hih.2
+      obtain ⟨ia, ib, ic⟩ := dec_J rest vs ws hw.2 ht.2 hd.2 hih.2
       refine ⟨by intro k; simp [lastF, ia k], by intro k x hx; simp only [lastF] at hx; exact ib k x hx, ?_⟩
       intro hc
       simp only [closedF] at hc
       simp [canonF, hd.1, ic hc]
     | istruct fs' vs' =>
       simp only [Fields.wf, Bool.and_eq_true, decide_eq_true_eq] at hw
-      simp only [jtOKF, jtOK, Bool.and_eq_true] at hj
       simp only [DecG] at hd
       simp only [FieldsIHJ] at hih
       simp only [hasType, Bool.and_eq_true] at ht
       obtain ⟨⟨ws', rfl, hd'⟩, hdr⟩ := hd
-      obtain ⟨ia, ib, ic⟩ := dec_J rest vs ws hw.2 ht.2 hj.2 hdr hih.2
-      obtain ⟨ja, jb, jc⟩ := dec_J fs' vs' ws' hw.1.1 ht.1.1 hj.1 hd' hih.1
+      obtain ⟨ia, ib, ic⟩ := dec_J rest vs ws hw.2 ht.2 hdr hih.2
+      obtain ⟨ja, jb, jc⟩ := dec_J fs' vs' ws' hw.1.1 ht.1.1 hd' hih.1
       refine ⟨by intro k; simp [lastF, map_or, ia k, ja k], ?_, ?_⟩
       · intro k x hx
         simp only [lastF] at hx
@@ -624,11 +620,10 @@ theorem dec_J : (fs : Fields) → (vs ws : GoVals) → Fields.wf fs = true → h
         simp [canonF, jc hc.1, ic hc.2]
     | imap t' kvs =>
       simp only [Fields.wf, Bool.and_eq_true] at hw
-      simp only [jtOKF, jtOK, Bool.and_eq_true] at hj
       simp only [DecG] at hd
       simp only [FieldsIHJ] at hih
       obtain ⟨⟨kvs', rfl, hdk⟩, hdr⟩ := hd
-      obtain ⟨ia, ib, ic⟩ := dec_J rest vs ws hw.2 ht.2 hj.2 hdr hih.2
+      obtain ⟨ia, ib, ic⟩ := dec_J rest vs ws hw.2 ht.2 hdr hih.2
       obtain ⟨kvs'', hdk', ka, kb⟩ := map_rj t' kvs hih.1.1
       simp only [kvsOf] at hdk
       rw [hdk'] at hdk; cases hdk
@@ -645,13 +640,12 @@ theorem dec_J : (fs : Fields) → (vs ws : GoVals) → Fields.wf fs = true → h
         simp [canonF, ic hc.2]
     | imapNil t' =>
       simp only [Fields.wf, Bool.and_eq_true] at hw
-      simp only [jtOKF, jtOK, Bool.and_eq_true] at hj
       simp only [DecG] at hd
       simp only [FieldsIHJ] at hih
       obtain ⟨⟨kvs', rfl, hdk⟩, hdr⟩ := hd
       simp only [kvsOf, encodeKV, mapVals, decodeP] at hdk
       cases hdk
-      obtain ⟨ia, ib, ic⟩ := dec_J rest vs ws hw.2 ht.2 hj.2 hdr hih.2
+      obtain ⟨ia, ib, ic⟩ := dec_J rest vs ws hw.2 ht.2 hdr hih.2
       refine ⟨by intro k; simp [lastF, lastKV, ia k], ?_, ?_⟩
       · intro k x hx; simp only [lastF, lastKV, Option.or_none] at hx; exact ib k x hx
       · intro hc
@@ -659,14 +653,238 @@ theorem dec_J : (fs : Fields) → (vs ws : GoVals) → Fields.wf fs = true → h
         simp [canonF, ic hc.2]
 
 
+/-! ## `Equal` with the zero value's encoding -/
+
+theorem equal_slice (a b : VList) : equal (.slice a) (.slice b) = equalL a b := by
+  cases h : equalL a b with
+  | false => simp [equal, h]
+  | true => simp [equal, h, equalL_hash a b h]
+
+theorem equal_map (p q : PList) : equal (.map p) (.map q) = equalP p q := by
+  cases h : equalP p q with
+  | false => simp [equal, h]
+  | true => simp [equal, h, equalP_hash p q h]
+
+/-- two sorted documents with the same keys compare alike with a third one if their entries do -/
+theorem equalP_congr : ∀ (p p' q : PList), sortedP p = true → sortedP p' = true → sortedP q = true →
+    (∀ k, (mapFind p k).isSome = (mapFind p' k).isSome) →
+    (∀ k v v' z, mapFind p k = some v → mapFind p' k = some v' → mapFind q k = some z → equal v z = equal v' z) →
+    equalP p q = equalP p' q
+  | .nil, .nil, _, _, _, _, _, _ => rfl
+  | .nil, .cons k v r, _, _, hs', _, hp, _ => by
+    obtain ⟨k', rfl, _, _⟩ := sorted_cons hs'
+    have := hp k'; simp [mapFind] at this
+  | .cons k v r, .nil, _, hs, _, _, hp, _ => by
+    obtain ⟨k', rfl, _, _⟩ := sorted_cons hs
+    have := hp k'; simp [mapFind] at this
+  | .cons k v r, .cons k' v' r', q, hs, hs', hq, hp, hv => by
+    obtain ⟨a, rfl, hla, hra⟩ := sorted_cons hs
+    obtain ⟨b, rfl, hlb, hrb⟩ := sorted_cons hs'
+    have hk : a = b := by
+      apply klt_total
+      · cases l : klt a b with
+        | false => rfl
+        | true =>
+          have h1 := hp a
+          have : keyLtAll a (.cons (.str b) v' r') = true := by simp [keyLtAll, l, ltAll_trans l r' hlb]
+          rw [find_none_of_ltAll _ this] at h1
+          simp [mapFind] at h1
+      · cases l : klt b a with
+        | false => rfl
+        | true =>
+          have h1 := hp b
+          have : keyLtAll b (.cons (.str a) v r) = true := by simp [keyLtAll, l, ltAll_trans l r hla]
+          rw [find_none_of_ltAll _ this] at h1
+          simp [mapFind] at h1
+    subst hk
+    have hpr : ∀ k, (mapFind r k).isSome = (mapFind r' k).isSome := by
+      intro k
+      by_cases e : k = a
+      · subst e; rw [find_none_of_ltAll r hla, find_none_of_ltAll r' hlb]
+      · have := hp k; simpa [mapFind, e] using this
+    cases q with
+    | nil => simp [equalP]
+    | cons kq z rq =>
+      obtain ⟨c, rfl, hlc, hrc⟩ := sorted_cons hq
+      simp only [equalP]
+      by_cases e : a = c
+      · subst e
+        have h0 : equal v z = equal v' z := hv a v v' z (by simp [mapFind]) (by simp [mapFind]) (by simp [mapFind])
+        have ih := equalP_congr r r' rq hra hrb hrc hpr (by
+          intro k x x' y h1 h2 h3
+          have ne : k ≠ a := by intro e; subst e; rw [find_none_of_ltAll r hla] at h1; cases h1
+          exact hv k x x' y (by simp [mapFind, ne, h1]) (by simp [mapFind, ne, h2]) (by simp [mapFind, ne, h3]))
+        rw [h0, ih]
+      · simp [equal, e]
+
+/-- the entry the zero value's encoding has under key `k` -/
+def zlast : Fields → Bytes → Option Val
+  | .nil, _ => none
+  | .cons .named a t rest, k => (zlast rest k).or (if k = a then some (zeroDoc t) else none)
+  | .cons .inline _ (.struct fs') rest, k => (zlast rest k).or (zlast fs' k)
+  | .cons _ _ _ rest, k => zlast rest k
+
+theorem zeroDocF_spec (k : Bytes) : ∀ (fs : Fields) (acc : PList), sortedP acc = true →
+    sortedP (zeroDocF fs acc) = true ∧ mapFind (zeroDocF fs acc) k = (zlast fs k).or (mapFind acc k)
+  | .nil, acc, h => by simp [zeroDocF, zlast, h]
+  | .cons md a t rest, acc, h => by
+    cases md
+    · have ih := zeroDocF_spec k rest (mapSet acc a (zeroDoc t)) (sorted_set _ _ acc h)
+      simp only [zeroDocF, zlast]
+      refine ⟨ih.1, ?_⟩
+      rw [ih.2, find_set _ _ _ acc h]
+      by_cases e : k = a <;> simp [e, Option.or_assoc]
+    · simp only [zeroDocF, zlast]; exact zeroDocF_spec k rest acc h
+    · cases t
+      case struct fs' =>
+        have i1 := zeroDocF_spec k fs' acc h
+        have i2 := zeroDocF_spec k rest _ i1.1
+        simp only [zeroDocF, zlast]
+        exact ⟨i2.1, by rw [i2.2, i1.2, Option.or_assoc]⟩
+      all_goals (simp only [zeroDocF, zlast]; exact zeroDocF_spec k rest acc h)
+    · simp only [zeroDocF, zlast]; exact zeroDocF_spec k rest acc h
+
+theorem zlast_none (k : Bytes) : ∀ fs : Fields, k ∉ aliases fs → zlast fs k = none
+  | .nil, _ => rfl
+  | .cons md a t rest, h => by
+    cases md
+    · simp only [aliases, List.mem_cons, not_or] at h
+      simp [zlast, zlast_none k rest h.2, h.1]
+    · simp only [aliases, List.mem_cons, not_or] at h
+      simp [zlast, zlast_none k rest h.2]
+    · cases t
+      case struct fs' =>
+        simp only [aliases, List.mem_append, not_or] at h
+        simp [zlast, zlast_none k rest h.2, zlast_none k fs' h.1]
+      all_goals (simp only [aliases] at h; simp [zlast, zlast_none k rest h])
+    · simp only [aliases] at h
+      simp [zlast, zlast_none k rest h]
+
+theorem none_of_map_jd {a b : Option Val} (h : a.map jd = b.map jd) (hb : b = none) : a = none := by
+  subst hb; cases a <;> simp_all
+
+/-- entry by entry, the re-encoded struct compares with the zero value's encoding as the original does -/
+theorem dec_Z : (fs : Fields) → (vs ws : GoVals) → Fields.wf fs = true → hasTypeF fs vs = true →
+    (aliases fs).Nodup → (∀ k ∈ inlineKeys fs vs, k ∉ aliases fs) →
+    DecG jd true fs vs ws → FieldsIHJ fs vs →
+    ∀ k v v' z, lastF fs ws k = some v → lastF fs vs k = some v' → zlast fs k = some z → equal v z = equal v' z
+  | .nil, .nil, .nil, _, _, _, _, _, _, k, v, v', z, h1, _, _ => by simp [lastF] at h1
+  | .nil, .nil, .cons _ _, _, _, _, _, hd, _, _, _, _, _, _, _, _ => by simp [DecG] at hd
+  | .nil, .cons _ _, _, _, ht, _, _, _, _, _, _, _, _, _, _, _ => by simp [hasTypeF] at ht
+  | .cons md a t rest, .nil, _, _, ht, _, _, _, _, _, _, _, _, _, _, _ => by simp [hasTypeF] at ht
+  | .cons md a t rest, .cons v0 vs, .nil, _, _, _, _, hd, _, _, _, _, _, _, _, _ => by simp [DecG] at hd
+  | .cons md a t rest, .cons v0 vs, .cons w0 ws, hw, ht, hnd, hdj, hd, hih, k, v, v', z, h1, h2, h3 => by
+    have sh := fshape hw ht
+    simp only [hasTypeF, Bool.and_eq_true] at ht
+    cases sh with
+    | nam =>
+      simp only [Fields.wf, Bool.and_eq_true] at hw
+      simp only [aliases, List.nodup_cons] at hnd
+      simp only [inlineKeys, aliases, List.mem_cons, not_or] at hdj
+      simp only [DecG] at hd
+      simp only [FieldsIHJ] at hih
+      have ia := (dec_J rest vs ws hw.2 ht.2 hd.2 hih.2).1
+      obtain ⟨_, _, _, f4⟩ := field_J hw.1 ht.1 hih.1.1 hih.1.2 hd.1
+      by_cases e : k = a
+      · subst e
+        have hrv : lastF rest vs k = none := lastF_none k rest vs hw.2 ht.2 hnd.1 (fun hk => (hdj k hk).1 rfl)
+        have hrw : lastF rest ws k = none := none_of_map_jd (ia k) hrv
+        have hz : zlast rest k = none := zlast_none k rest hnd.1
+        simp [lastF, hrw] at h1; simp [lastF, hrv] at h2; simp [zlast, hz] at h3
+        subst h1; subst h2; subst h3; exact f4
+      · simp [lastF, e] at h1 h2; simp [zlast, e] at h3
+        exact dec_Z rest vs ws hw.2 ht.2 hnd.2 (fun k hk => (hdj k hk).2) hd.2 hih.2 k v v' z h1 h2 h3
+    | omi =>
+      simp only [Fields.wf, Bool.and_eq_true] at hw
+      simp only [aliases, List.nodup_cons] at hnd
+      simp only [inlineKeys, aliases, List.mem_cons, not_or] at hdj
+      simp only [DecG] at hd
+      simp only [FieldsIHJ] at hih
+      simp only [zlast] at h3
+      by_cases e : k = a
+      · subst e; rw [zlast_none k rest hnd.1] at h3; cases h3
+      · have e1 : lastF rest ws k = some v := by
+          simp only [lastF] at h1; split at h1
+          · exact h1
+          · simpa [e] using h1
+        have e2 : lastF rest vs k = some v' := by
+          simp only [lastF] at h2; split at h2
+          · exact h2
+          · simpa [e] using h2
+        exact dec_Z rest vs ws hw.2 ht.2 hnd.2 (fun k hk => (hdj k hk).2) hd.2 hih.2 k v v' z e1 e2 h3
+    | ign =>
+      simp only [Fields.wf, Bool.and_eq_true] at hw
+      simp only [aliases] at hnd hdj
+      simp only [inlineKeys] at hdj
+      simp only [DecG] at hd
+      simp only [FieldsIHJ] at hih
+      simp only [lastF] at h1 h2; simp only [zlast] at h3
+      exact dec_Z rest vs ws hw.2 ht.2 hnd hdj hd.2 hih.2 k v v' z h1 h2 h3
+    | istruct fs' vs' =>
+      simp only [Fields.wf, Bool.and_eq_true, decide_eq_true_eq] at hw
+      simp only [aliases, List.nodup_append] at hnd
+      simp only [inlineKeys, aliases, List.mem_append, not_or] at hdj
+      simp only [DecG] at hd
+      simp only [FieldsIHJ] at hih
+      simp only [hasType, Bool.and_eq_true] at ht
+      obtain ⟨⟨ws', rfl, hd'⟩, hdr⟩ := hd
+      have hik : inlineKeys fs' vs' = [] := inlineKeys_nil fs' vs' hw.1.2
+      have ia := (dec_J rest vs ws hw.2 ht.2 hdr hih.2).1
+      have ja := (dec_J fs' vs' ws' hw.1.1 ht.1.1 hd' hih.1).1
+      simp only [lastF] at h1 h2; simp only [zlast] at h3
+      by_cases e : k ∈ aliases fs'
+      · have hrv : lastF rest vs k = none :=
+          lastF_none k rest vs hw.2 ht.2 (fun hr => hnd.2.2 k e k hr rfl) (fun hk => (hdj k hk).1 e)
+        have hrw : lastF rest ws k = none := none_of_map_jd (ia k) hrv
+        have hz : zlast rest k = none := zlast_none k rest (fun hr => hnd.2.2 k e k hr rfl)
+        simp [hrw] at h1; simp [hrv] at h2; simp [hz] at h3
+        exact dec_Z fs' vs' ws' hw.1.1 ht.1.1 hnd.1 (by rw [hik]; simp) hd' hih.1 k v v' z h1 h2 h3
+      · have hfv : lastF fs' vs' k = none := lastF_none k fs' vs' hw.1.1 ht.1.1 e (by rw [hik]; simp)
+        have hfw : lastF fs' ws' k = none := none_of_map_jd (ja k) hfv
+        have hz : zlast fs' k = none := zlast_none k fs' e
+        simp [hfw] at h1; simp [hfv] at h2; simp [hz] at h3
+        exact dec_Z rest vs ws hw.2 ht.2 hnd.2.1 (fun k hk => (hdj k hk).2) hdr hih.2 k v v' z h1 h2 h3
+    | imap t' kvs =>
+      simp only [Fields.wf, Bool.and_eq_true] at hw
+      simp only [aliases] at hnd
+      simp only [inlineKeys, aliases, List.mem_append] at hdj
+      simp only [DecG] at hd
+      simp only [FieldsIHJ] at hih
+      obtain ⟨⟨kvs', rfl, hdk⟩, hdr⟩ := hd
+      obtain ⟨kvs'', hdk', ka, _⟩ := map_rj t' kvs hih.1.1
+      simp only [kvsOf] at hdk
+      rw [hdk'] at hdk; cases hdk
+      simp only [lastF] at h1 h2; simp only [zlast] at h3
+      have hmem : k ∈ aliases rest := by
+        by_cases m : k ∈ aliases rest
+        · exact m
+        · rw [zlast_none k rest m] at h3; cases h3
+      have hkv : lastKV t' kvs k = none := lastKV_none_of_not_mem t' k kvs (fun hk => hdj k (Or.inl hk) hmem)
+      have hkw : lastKV t' kvs' k = none := none_of_map_jd (ka k) hkv
+      simp [hkw] at h1; simp [hkv] at h2
+      exact dec_Z rest vs ws hw.2 ht.2 hnd (fun k hk => hdj k (Or.inr hk)) hdr hih.2 k v v' z h1 h2 h3
+    | imapNil t' =>
+      simp only [Fields.wf, Bool.and_eq_true] at hw
+      simp only [aliases] at hnd hdj
+      simp only [inlineKeys] at hdj
+      simp only [DecG] at hd
+      simp only [FieldsIHJ] at hih
+      obtain ⟨⟨kvs', rfl, hdk⟩, hdr⟩ := hd
+      simp only [kvsOf, encodeKV, mapVals, decodeP] at hdk
+      cases hdk
+      simp only [lastF, lastKV, Option.or_none] at h1 h2; simp only [zlast] at h3
+      exact dec_Z rest vs ws hw.2 ht.2 hnd hdj hdr hih.2 k v v' z h1 h2 h3
+
 /-- the struct decoder on the JSON form of a struct encoding -/
 theorem struct_rj (fs : Fields) (vs : GoVals) (hw : (GoType.struct fs).wf = true)
     (ht : hasType (.struct fs) (.struct vs) = true) (hok : okP (encodeFields fs vs .nil) = true)
-    (hj : jtOKF fs = true) (hih : FieldsIHJ fs vs) :
+    (hih : FieldsIHJ fs vs) :
     ∃ ws, decode (.struct fs) (.map (mapVals jd (encodeFields fs vs .nil))) = .ok (.struct ws) ∧
       okDoc (.map (encodeFields fs ws .nil)) = true ∧
       jd (.map (encodeFields fs ws .nil)) = jd (.map (encodeFields fs vs .nil)) ∧
-      (closedF fs = true → ws = canonF fs vs) := by
+      (closedF fs = true → ws = canonF fs vs) ∧
+      equal (.map (encodeFields fs ws .nil)) (.map (zeroDocF fs .nil)) =
+        equal (.map (encodeFields fs vs .nil)) (.map (zeroDocF fs .nil)) := by
   simp only [GoType.wf, Bool.and_eq_true, decide_eq_true_eq] at hw
   simp only [hasType, Bool.and_eq_true, List.all_eq_true, Bool.not_eq_true', List.contains_eq_mem, decide_eq_false_iff_not] at ht
   obtain ⟨⟨hfw, hn1⟩, hnd⟩ := hw
@@ -688,12 +906,25 @@ theorem struct_rj (fs : Fields) (vs : GoVals) (hw : (GoType.struct fs).wf = true
       rw [hfm k, lastF_inl k fs vs hfw htf hn1 e]
   subst hm1
   obtain ⟨ws2, m2, hp2, hd2⟩ := phase2_okG jd fs vs ws1 hfw htf hn1 hd1 hig
-  obtain ⟨ja, jb, jc⟩ := dec_J fs vs ws2 hfw htf hj hd2 hih
+  obtain ⟨ja, jb, jc⟩ := dec_J fs vs ws2 hfw htf hd2 hih
   have sp2 := fun k => encodeFields_spec k fs ws2 .nil rfl
   have hre := reenc_doc (encodeFields fs ws2 .nil) (encodeFields fs vs .nil) (sp2 []).1 (sp []).1 hok
     (by intro k; rw [(sp2 k).2, (sp k).2]; simpa [mapFind] using ja k)
     (by intro k x hx; rw [(sp2 k).2] at hx; simp only [mapFind, Option.or_none] at hx; exact jb k x hx)
-  exact ⟨ws2, by simp [decode, hp1, hp2, Res.bind, Res.map], hre.1, hre.2, jc⟩
+  have hz := dec_Z fs vs ws2 hfw htf hnd (fun k hk => hdj k hk) hd2 hih
+  have spz := fun k => zeroDocF_spec k fs .nil rfl
+  have heq : equalP (encodeFields fs ws2 .nil) (zeroDocF fs .nil) = equalP (encodeFields fs vs .nil) (zeroDocF fs .nil) := by
+    apply equalP_congr _ _ _ (sp2 []).1 (sp []).1 (spz []).1
+    · intro k
+      rw [(sp2 k).2, (sp k).2]
+      simp only [mapFind, Option.or_none]
+      have := ja k
+      cases h1 : lastF fs ws2 k <;> cases h2 : lastF fs vs k <;> simp_all
+    · intro k v v' z h1 h2 h3
+      rw [(sp2 k).2] at h1; rw [(sp k).2] at h2; rw [(spz k).2] at h3
+      simp only [mapFind, Option.or_none] at h1 h2 h3
+      exact hz k v v' z h1 h2 h3
+  exact ⟨ws2, by simp [decode, hp1, hp2, Res.bind, Res.map], hre.1, hre.2, jc, by rw [equal_map, equal_map, heq]⟩
 
 /-! ## the main induction -/
 
@@ -717,7 +948,7 @@ theorem rj_of_cj {t : GoType} {v : GoVal} (hc : closed t = true) (hs : noStruct 
   obtain ⟨j, hj, hd⟩ := cj v t hc hs hw h g
   have he := enc_canon hc hw h
   exact ⟨canon t v, by rw [jd_ok hj]; exact hd, by rw [he], by rw [he]; exact jd_enc v t h g, fun _ => rfl,
-    fun _ => by rw [he]⟩
+    by rw [he]⟩
 
 theorem doc_nil_iff (m' m : PList) (hs' : sortedP m' = true) (hs : sortedP m = true)
     (ha : ∀ k, (mapFind m' k).map jd = (mapFind m k).map jd) : m' = .nil ↔ m = .nil := by
@@ -738,27 +969,26 @@ theorem doc_nil_iff (m' m : PList) (hs' : sortedP m' = true) (hs : sortedP m = t
     | some x => rw [hm] at h1; cases h1
 
 mutual
-  theorem rj : (v : GoVal) → ∀ t : GoType, t.wf = true → hasType t v = true → jsonOK t v = true → jtOK t = true → RJ t v
-    | .int v, t, hw, h, g, _ | .uint v, t, hw, h, g, _ | .f32 v, t, hw, h, g, _ | .f64 v, t, hw, h, g, _
-    | .str v, t, hw, h, g, _ | .bool v, t, hw, h, g, _ | .bytesNil, t, hw, h, g, _ | .bytes v, t, hw, h, g, _
-    | .barr v, t, hw, h, g, _ | .time v _, t, hw, h, g, _ | .dur v, t, hw, h, g, _ | .uuid v, t, hw, h, g, _ => by
+  theorem rj : (v : GoVal) → ∀ t : GoType, t.wf = true → hasType t v = true → jsonOK t v = true → RJ t v
+    | .int v, t, hw, h, g | .uint v, t, hw, h, g | .f32 v, t, hw, h, g | .f64 v, t, hw, h, g
+    | .str v, t, hw, h, g | .bool v, t, hw, h, g | .bytesNil, t, hw, h, g | .bytes v, t, hw, h, g
+    | .barr v, t, hw, h, g | .time v _, t, hw, h, g | .dur v, t, hw, h, g | .uuid v, t, hw, h, g => by
       have h0 := h
       cases t <;> simp [hasType] at h <;> exact rj_of_cj rfl rfl hw h0 g
-    | .ptrNil, t, _, h, _, _ => by
+    | .ptrNil, t, _, h, _ => by
       cases t <;> simp [hasType] at h
       exact ⟨.ptrNil, by simp [encode, jd, jsonForm, decode], by simp [encode], by simp [encode, okDoc, jsonForm, jdoc],
-        fun _ => by simp [canon], fun _ => by simp [encode]⟩
-    | .ptr v, t, hw, h, g, hj => by
+        fun _ => by simp [canon], by simp [encode]⟩
+    | .ptr v, t, hw, h, g => by
       cases t <;> simp [hasType] at h
       rename_i t'
       simp only [GoType.wf, Bool.and_eq_true] at hw
       simp only [jsonOK] at g
-      simp only [jtOK] at hj
       have okx := jd_enc v t' h g
-      obtain ⟨w', d1, d2, d3, d4, _⟩ := rj v t' hw.2 h g hj
+      obtain ⟨w', d1, d2, d3, d4, _⟩ := rj v t' hw.2 h g
       by_cases hx : encode t' v = .nil
       · exact ⟨.ptrNil, by simp [encode, hx, jd, jsonForm, decode], by simp [encode, hx],
-          by simp [encode, okDoc, jsonForm, jdoc], fun _ => by simp [canon, hx, isNilDoc], fun _ => by simp [encode, hx]⟩
+          by simp [encode, okDoc, jsonForm, jdoc], fun _ => by simp [canon, hx, isNilDoc], by simp [encode, hx]⟩
       · have hjn : jd (encode t' v) ≠ .nil := fun e => hx ((jd_nil_iff okx).mp e)
         have hwn : encode t' w' ≠ .nil := by
           intro e; rw [e] at d2; exact hjn (by rw [← d2]; rfl)
@@ -768,69 +998,65 @@ mutual
           | true => exact absurd (isNilDoc_iff.mp hh) hx
         refine ⟨.ptr w', ?_, by simpa [encode] using d2, by simpa [encode] using d3,
           fun hc => by simp only [closed] at hc; simp [canon, hin, d4 hc],
-          fun _ => by simp [encode, zeroDoc, equal_nil_false hx, equal_nil_false hwn]⟩
+          by simp [encode, zeroDoc, equal_nil_false hx, equal_nil_false hwn]⟩
         simp only [encode]
         cases hjx : jd (encode t' v) <;> first | exact absurd hjx hjn | (rw [hjx] at d1; simp [decode, d1, Res.map])
-    | .sliceNil, t, _, h, _, _ => by
+    | .sliceNil, t, _, h, _ => by
       cases t <;> simp [hasType] at h
       have e := (okDoc_slice (l := .nil) rfl)
       exact ⟨.slice .nil, by simp [encode, encodeL, e.2, mapL, decode, decodeL, Res.map], by simp [encode, encodeL],
-        by simpa [encode, encodeL] using e.1, fun _ => by simp [canon], fun _ => by simp [encode, encodeL]⟩
-    | .slice xs, t, hw, h, g, hj => by
+        by simpa [encode, encodeL] using e.1, fun _ => by simp [canon], by simp [encode, encodeL]⟩
+    | .slice xs, t, hw, h, g => by
       cases t <;> simp [hasType] at h
       rename_i t'
       simp only [GoType.wf, Bool.and_eq_true] at hw
       simp only [jsonOK] at g
-      simp only [jtOK] at hj
-      obtain ⟨ws, l1, l2, l3, l4, l5⟩ := rjL xs t' hw.2 h g hj
+      obtain ⟨ws, l1, l2, l3, l4, l5, _⟩ := rjL xs t' hw.2 h g
       have e1 := okDoc_slice (jd_encL xs t' h g)
       have e2 := okDoc_slice l3
       refine ⟨.slice ws, by simp [encode, e1.2, decode, l1, Res.map], by simp [encode, e1.2, e2.2, l2],
-        by simpa [encode] using e2.1, fun hc => by simp only [closed] at hc; simp [canon, l5 hc], fun _ => ?_⟩
+        by simpa [encode] using e2.1, fun hc => by simp only [closed] at hc; simp [canon, l5 hc], ?_⟩
       simp only [encode, zeroDoc, equal_slice_nil]
       cases xs <;> cases ws <;> simp [GoVals.length] at l4 <;> simp [encodeL]
-    | .arr xs, t, hw, h, g, hj => by
+    | .arr xs, t, hw, h, g => by
       cases t <;> simp [hasType] at h
       rename_i n t'
       simp only [GoType.wf, Bool.and_eq_true] at hw
       simp only [jsonOK] at g
-      simp only [jtOK] at hj
-      obtain ⟨ws, l1, l2, l3, l4, l5⟩ := rjL xs t' hw.2 h.2 g hj
+      obtain ⟨ws, l1, l2, l3, l4, l5, l6⟩ := rjL xs t' hw.2 h.2 g
       have e1 := okDoc_slice (jd_encL xs t' h.2 g)
       have e2 := okDoc_slice l3
       have hlen : ¬ (mapL jd (encodeL t' xs)).length > n := by rw [mapL_length, encodeL_length]; omega
       have hcl : closed (.arr n t') = true → GoVal.arr ws = canon (.arr n t') (.arr xs) := by
         intro hc; simp only [closed] at hc; simp [canon, l5 hc]
       refine ⟨.arr ws, by simp [encode, e1.2, decode, hlen, l1, Res.map, padTo_full _ n ws (by omega)],
-        by simp [encode, e1.2, e2.2, l2], by simpa [encode] using e2.1, hcl, fun hs => ?_⟩
-      have hc : closed (.arr n t') = true := by simpa [soc, isSimpleOpen] using hs
-      have hwf : (GoType.arr n t').wf = true := by simp [GoType.wf, hw.1, hw.2]
-      rw [hcl hc, enc_canon hc hwf (by simp [hasType, h.1, h.2])]
-    | .mapNil, t, _, h, _, _ => by
+        by simp [encode, e1.2, e2.2, l2], by simpa [encode] using e2.1, hcl, ?_⟩
+      simp only [encode, zeroDoc, equal_slice]
+      exact l6 n
+    | .mapNil, t, _, h, _ => by
       cases t <;> simp [hasType] at h
       have e := (okDoc_map (m := .nil) rfl rfl)
       exact ⟨.map .nil, by simp [encode, e.2, mapVals, decode, decodeP, Res.map], by simp [encode, encodeKV],
-        by simpa [encode, encodeKV] using e.1, fun _ => by simp [canon], fun _ => by simp [encode, encodeKV]⟩
-    | .map kvs, t, hw, h, g, hj => by
+        by simpa [encode, encodeKV] using e.1, fun _ => by simp [canon], by simp [encode, encodeKV]⟩
+    | .map kvs, t, hw, h, g => by
       cases t <;> simp [hasType] at h
       rename_i t'
       simp only [GoType.wf] at hw
       simp only [jsonOK] at g
-      simp only [jtOK] at hj
       have sp := fun k => encodeKV_spec t' k kvs .nil rfl
       have hok := jd_encKV kvs t' .nil h.1 g rfl
       have e1 := okDoc_map hok (sp []).1
-      obtain ⟨kvs', hd, ka, kb⟩ := map_rj t' kvs (rjKV kvs t' hw h.1 g hj)
+      obtain ⟨kvs', hd, ka, kb⟩ := map_rj t' kvs (rjKV kvs t' hw h.1 g)
       have sp2 := fun k => encodeKV_spec t' k kvs' .nil rfl
       have hfa : ∀ k, (mapFind (encodeKV t' kvs' .nil) k).map jd = (mapFind (encodeKV t' kvs .nil) k).map jd := by
         intro k; rw [(sp2 k).2, (sp k).2]; simpa [mapFind] using ka k
       have hre := reenc_doc (encodeKV t' kvs' .nil) (encodeKV t' kvs .nil) (sp2 []).1 (sp []).1 hok hfa
         (by intro k x hx; rw [(sp2 k).2] at hx; simp only [mapFind, Option.or_none] at hx; exact kb k x hx)
       refine ⟨.map kvs', by simp [encode, e1.2, decode, hd, Res.map], by simpa [encode] using hre.2,
-        by simpa [encode] using hre.1, ?_, fun _ => ?_⟩
+        by simpa [encode] using hre.1, ?_, ?_⟩
       · intro hc
         simp only [closed] at hc
-        have := rjKVc kvs t' hc hw h.1 g hj .nil .nil (by simp [mapVals, decodeP])
+        have := rjKVc kvs t' hc hw h.1 g .nil .nil (by simp [mapVals, decodeP])
         rw [this] at hd; cases hd
         simp [canon]
       · simp only [encode, zeroDoc, equal_map_nil]
@@ -841,7 +1067,7 @@ mutual
           cases h2 : encodeKV t' kvs .nil with
           | nil => rw [hiff.mpr h2] at h1; cases h1
           | cons a' b' c' => rfl
-    | .struct vs, t, hw, h, g, hj => by
+    | .struct vs, t, hw, h, g => by
       cases t <;> try (simp [hasType] at h; done)
       rename_i fs
       have hfw : Fields.wf fs = true := by
@@ -849,21 +1075,19 @@ mutual
       have htf : hasTypeF fs vs = true := by
         simp only [hasType, Bool.and_eq_true] at h; exact h.1
       simp only [jsonOK] at g
-      simp only [jtOK] at hj
       have hok := jd_encF vs fs .nil htf g rfl
       have e1 := okDoc_map hok (encodeFields_spec [] fs vs .nil rfl).1
-      obtain ⟨ws, hd, h3, h2, h4⟩ := struct_rj fs vs hw h hok hj (rjF vs fs hfw htf g hj)
+      obtain ⟨ws, hd, h3, h2, h4, h5⟩ := struct_rj fs vs hw h hok (rjF vs fs hfw htf g)
       have hcl : closed (.struct fs) = true → GoVal.struct ws = canon (.struct fs) (.struct vs) := by
         intro hc; simp only [closed] at hc; simp [canon, h4 hc]
       refine ⟨.struct ws, by simp only [encode]; rw [e1.2]; exact hd, by simpa [encode] using h2,
-        by simpa [encode] using h3, hcl, fun hs => ?_⟩
-      have hc : closed (.struct fs) = true := by simpa [soc, isSimpleOpen] using hs
-      rw [hcl hc, enc_canon hc hw h]
-    | .anyNil, t, _, h, _, _ => by
+        by simpa [encode] using h3, hcl, ?_⟩
+      simpa [encode, zeroDoc] using h5
+    | .anyNil, t, _, h, _ => by
       cases t <;> simp [hasType] at h
       exact ⟨.anyNil, by simp [encode, jd, jsonForm, dec_any, generic], by simp [encode],
-        by simp [encode, okDoc, jsonForm, jdoc], fun hc => by simp [closed] at hc, fun _ => by simp [encode]⟩
-    | .any t' v, t, _, h, g, _ => by
+        by simp [encode, okDoc, jsonForm, jdoc], fun hc => by simp [closed] at hc, by simp [encode]⟩
+    | .any t' v, t, _, h, g => by
       cases t <;> simp [hasType] at h
       simp only [jsonOK] at g
       have okx := jd_enc v t' h.2 g
@@ -874,91 +1098,93 @@ mutual
       have hfix := jd_ok (jdoc_fix _ hjd)
       refine ⟨generic (jd (encode t' v)), by simp [encode, dec_any _ hne], by simp only [encode]; rw [hgen, hfix],
         by rw [hgen]; exact okDoc_of (jdoc_fix _ hjd) hjd,
-        fun hc => by simp [closed] at hc, fun _ => ?_⟩
+        fun hc => by simp [closed] at hc, ?_⟩
       simp only [encode]
       rw [hgen, zeroDoc]
       by_cases hx : encode t' v = .nil
       · rw [hx]; rfl
       · have : jd (encode t' v) ≠ .nil := fun e => hx ((jd_nil_iff okx).mp e)
         rw [equal_nil_false hx, equal_nil_false this]
-  theorem rjL : (xs : GoVals) → ∀ t : GoType, t.wf = true → hasTypeL t xs = true → jsonOKL t xs = true → jtOK t = true →
+  theorem rjL : (xs : GoVals) → ∀ t : GoType, t.wf = true → hasTypeL t xs = true → jsonOKL t xs = true →
       ∃ ws, decodeL (decode t) (mapL jd (encodeL t xs)) = .ok ws ∧ mapL jd (encodeL t ws) = mapL jd (encodeL t xs) ∧
-        okL (encodeL t ws) = true ∧ ws.length = xs.length ∧ (closed t = true → ws = canonL t xs)
-    | .nil, _, _, _, _, _ => ⟨.nil, by simp [encodeL, mapL, decodeL], rfl, rfl, rfl, fun _ => rfl⟩
-    | .cons v vs, t, hw, h, g, hj => by
+        okL (encodeL t ws) = true ∧ ws.length = xs.length ∧ (closed t = true → ws = canonL t xs) ∧
+        (∀ n, equalL (encodeL t ws) (VList.replicate n (zeroDoc t)) = equalL (encodeL t xs) (VList.replicate n (zeroDoc t)))
+    | .nil, _, _, _, _ => ⟨.nil, by simp [encodeL, mapL, decodeL], rfl, rfl, rfl, fun _ => rfl, fun _ => rfl⟩
+    | .cons v vs, t, hw, h, g => by
       simp only [hasTypeL, Bool.and_eq_true] at h
       simp only [jsonOKL, Bool.and_eq_true] at g
-      obtain ⟨w, d1, d2, d3, d4, _⟩ := rj v t hw h.1 g.1 hj
-      obtain ⟨ws, l1, l2, l3, l4, l5⟩ := rjL vs t hw h.2 g.2 hj
+      obtain ⟨w, d1, d2, d3, d4, d5⟩ := rj v t hw h.1 g.1
+      obtain ⟨ws, l1, l2, l3, l4, l5, l6⟩ := rjL vs t hw h.2 g.2
       exact ⟨.cons w ws, by simp [encodeL, mapL, decodeL, d1, l1, Res.bind, Res.map], by simp [encodeL, mapL, d2, l2],
-        by simp [encodeL, okL, d3, l3], by simp [GoVals.length, l4], fun hc => by simp [canonL, d4 hc, l5 hc]⟩
+        by simp [encodeL, okL, d3, l3], by simp [GoVals.length, l4], fun hc => by simp [canonL, d4 hc, l5 hc],
+        fun n => by cases n <;> simp [encodeL, VList.replicate, equalL, d5, l6]⟩
   theorem rjKV : (kvs : GoKVs) → ∀ t : GoType, t.wf = true → hasTypeKV t kvs = true → jsonOKKV t kvs = true →
-      jtOK t = true → ∀ k x, lastKV t kvs k = some x → RJx t x
-    | .nil, _, _, _, _, _, k, x, hf => by simp [lastKV] at hf
-    | .cons k0 v kvs, t, hw, h, g, hj, k, x, hf => by
+      ∀ k x, lastKV t kvs k = some x → RJx t x
+    | .nil, _, _, _, _, k, x, hf => by simp [lastKV] at hf
+    | .cons k0 v kvs, t, hw, h, g, k, x, hf => by
       simp only [hasTypeKV, Bool.and_eq_true] at h
       simp only [jsonOKKV, Bool.and_eq_true] at g
       simp only [lastKV] at hf
       cases hl : lastKV t kvs k with
       | some x' =>
         rw [hl] at hf; simp at hf; subst hf
-        exact rjKV kvs t hw h.2 g.2 hj k x' hl
+        exact rjKV kvs t hw h.2 g.2 k x' hl
       | none =>
         rw [hl] at hf
         by_cases e : k = k0
         · simp [e] at hf; subst hf
-          obtain ⟨w, d1, d2, d3, _, _⟩ := rj v t hw h.1.2 g.1.2 hj
+          obtain ⟨w, d1, d2, d3, _, _⟩ := rj v t hw h.1.2 g.1.2
           exact ⟨jd_enc v t h.1.2 g.1.2, w, d1, d2, d3⟩
         · simp [e] at hf
   theorem rjKVc : (kvs : GoKVs) → ∀ t : GoType, closed t = true → t.wf = true → hasTypeKV t kvs = true →
-      jsonOKKV t kvs = true → jtOK t = true → ∀ (acc : PList) (akv : GoKVs),
+      jsonOKKV t kvs = true → ∀ (acc : PList) (akv : GoKVs),
       decodeP (decode t) (mapVals jd acc) = .ok akv →
       decodeP (decode t) (mapVals jd (encodeKV t kvs acc)) = .ok (canonKV t kvs akv)
-    | .nil, _, _, _, _, _, _, acc, akv, ha => by simpa [encodeKV, canonKV] using ha
-    | .cons k v kvs, t, hc, hw, h, g, hj, acc, akv, ha => by
+    | .nil, _, _, _, _, _, acc, akv, ha => by simpa [encodeKV, canonKV] using ha
+    | .cons k v kvs, t, hc, hw, h, g, acc, akv, ha => by
       simp only [hasTypeKV, Bool.and_eq_true] at h
       simp only [jsonOKKV, Bool.and_eq_true] at g
-      obtain ⟨w, d1, _, _, d4, _⟩ := rj v t hw h.1.2 g.1.2 hj
+      obtain ⟨w, d1, _, _, d4, _⟩ := rj v t hw h.1.2 g.1.2
       simp only [encodeKV, canonKV]
-      apply rjKVc kvs t hc hw h.2 g.2 hj
+      apply rjKVc kvs t hc hw h.2 g.2
       rw [mapVals_set]
       exact decodeP_set (decode t) k _ _ (by rw [d1, d4 hc]) _ akv ha
   theorem rjF : (vs : GoVals) → ∀ fs : Fields, Fields.wf fs = true → hasTypeF fs vs = true → jsonOKF fs vs = true →
-      jtOKF fs = true → FieldsIHJ fs vs
-    | .nil, fs, _, _, _, _ => by cases fs <;> simp [FieldsIHJ]
-    | .cons v vs, .nil, _, _, _, _ => by simp [FieldsIHJ]
-    | .cons v vs, .cons md a t rest, hw, ht, g, hj => by
+      FieldsIHJ fs vs
+    | .nil, fs, _, _, _ => by cases fs <;> simp [FieldsIHJ]
+    | .cons v vs, .nil, _, _, _ => by simp [FieldsIHJ]
+    | .cons v vs, .cons md a t rest, hw, ht, g => by
       simp only [hasTypeF, Bool.and_eq_true] at ht
       cases md
-      · simp only [Fields.wf, jsonOKF, jtOKF, Bool.and_eq_true] at hw g hj
+      · simp only [Fields.wf, jsonOKF, Bool.and_eq_true] at hw g
         simp only [FieldsIHJ]
-        exact ⟨⟨jd_enc v t ht.1 g.1.2, rj v t hw.1 ht.1 g.1.2 hj.1⟩, rjF vs rest hw.2 ht.2 g.2 hj.2⟩
-      · simp only [Fields.wf, jsonOKF, jtOKF, Bool.and_eq_true] at hw g hj
+        exact ⟨⟨jd_enc v t ht.1 g.1.2, rj v t hw.1 ht.1 g.1.2⟩, rjF vs rest hw.2 ht.2 g.2⟩
+      · simp only [Fields.wf, jsonOKF, Bool.and_eq_true] at hw g
         simp only [FieldsIHJ]
-        exact ⟨⟨jd_enc v t ht.1 g.1.2, rj v t hw.1 ht.1 g.1.2 hj.1.2⟩, rjF vs rest hw.2 ht.2 g.2 hj.2⟩
+        exact ⟨⟨jd_enc v t ht.1 g.1.2, rj v t hw.1 ht.1 g.1.2⟩, rjF vs rest hw.2 ht.2 g.2⟩
       · cases t <;> try (simp [Fields.wf] at hw; done)
         case map t' =>
-          simp only [Fields.wf, jsonOKF, jtOKF, jtOK, Bool.and_eq_true] at hw g hj
+          simp only [Fields.wf, jsonOKF, Bool.and_eq_true] at hw g
           cases v <;> try (simp [hasType] at ht; done)
-          case mapNil => simp only [FieldsIHJ]; exact ⟨trivial, rjF vs rest hw.2 ht.2 g.2 hj.2⟩
+          case mapNil => simp only [FieldsIHJ]; exact ⟨trivial, rjF vs rest hw.2 ht.2 g.2⟩
           case map kvs =>
             simp only [hasType, Bool.and_eq_true] at ht
             simp only [jsonOK] at g
             simp only [FieldsIHJ]
-            exact ⟨⟨rjKV kvs t' hw.1 ht.1.1 g.1 hj.1,
-              fun hc => rjKVc kvs t' hc hw.1 ht.1.1 g.1 hj.1 .nil .nil (by simp [mapVals, decodeP])⟩,
-              rjF vs rest hw.2 ht.2 g.2 hj.2⟩
+            exact ⟨⟨rjKV kvs t' hw.1 ht.1.1 g.1,
+              fun hc => rjKVc kvs t' hc hw.1 ht.1.1 g.1 .nil .nil (by simp [mapVals, decodeP])⟩,
+              rjF vs rest hw.2 ht.2 g.2⟩
         case struct fs' =>
-          simp only [Fields.wf, jsonOKF, jtOKF, jtOK, Bool.and_eq_true] at hw g hj
+          simp only [Fields.wf, jsonOKF, Bool.and_eq_true] at hw g
           cases v <;> try (simp [hasType] at ht; done)
           case struct vs' =>
             simp only [hasType, Bool.and_eq_true] at ht
             simp only [jsonOK] at g
             simp only [FieldsIHJ]
-            exact ⟨rjF vs' fs' hw.1.1 ht.1.1 g.1 hj.1, rjF vs rest hw.2 ht.2 g.2 hj.2⟩
-      · simp only [Fields.wf, jsonOKF, jtOKF, Bool.and_eq_true] at hw g hj
+            exact ⟨rjF vs' fs' hw.1.1 ht.1.1 g.1, rjF vs rest hw.2 ht.2 g.2⟩
+      · simp only [Fields.wf, jsonOKF, Bool.and_eq_true] at hw g
         simp only [FieldsIHJ]
-        exact ⟨trivial, rjF vs rest hw.2 ht.2 g hj⟩
+        exact ⟨trivial, rjF vs rest hw.2 ht.2 g⟩
 end
 
 end Uniflow.Codec
